@@ -164,7 +164,63 @@ fn lets_over_cases_with_new(k: usize) -> String {
     wrap(b)
 }
 
+fn nested_let_call_case(k: usize) -> String {
+    // let x: T = f(..); x.case { .., C => <next link> } nested in the last clause
+    let mut e = "a".to_string();
+    for i in (0..k).rev() {
+        e = format!("let t{i}: T3 = mk(a + {i});\n  t{i}.case {{ A => {i}, B => a, C => {e} }}");
+    }
+    wrap(format!("  {e}"))
+}
+
+fn nested_let_call_case5(k: usize) -> String {
+    let mut e = "a".to_string();
+    for i in (0..k).rev() {
+        e = format!("let t{i}: T5 = mk5(a + {i});\n  t{i}.case {{ K1 => {i}, K2(p{i}) => p{i}, K3(p{i}, q{i}) => {e}, K4 => a, K5(u{i}) => 5 }}");
+    }
+    wrap(format!("  {e}"))
+}
+
+fn nested_let_call_codata(k: usize) -> String {
+    // let o: Obj3 = obj(..); a destructor on it, the next link nested in the argument-free continuation
+    let mut e = "a".to_string();
+    for i in (0..k).rev() {
+        e = format!("let o{i}: Obj3 = obj(a + {i});\n  let y{i}: i64 = o{i}.m2({i});\n  if y{i} == {i} {{ {i} }} else {{ {e} }}");
+    }
+    wrap(format!("  {e}"))
+}
+
+fn nested_case_in_new_clause(k: usize) -> String {
+    let mut e = "x0 + a".to_string();
+    for i in (0..k).rev() {
+        e = format!("let f{i}: Fun = mk(a + {i}).case {{ A => new {{ ap(x{i}) => x{i} }}, B => new {{ ap(x{i}) => {i} }}, C => new {{ ap(x{i}) => {i} + x{i} }} }};\n  f{i}.ap({e})", e = if i + 1 == k { "a".to_string() } else { e.clone() });
+    }
+    wrap(format!("  {e}"))
+}
+
+fn nested_label_call_case(k: usize) -> String {
+    let mut e = "a".to_string();
+    for i in (0..k).rev() {
+        e = format!("let t{i}: T3 = label k{i} {{ if a == {i} {{ goto k{i}(B) }} else {{ mk(a) }} }};\n  t{i}.case {{ A => {i}, B => {e}, C => a }}");
+    }
+    wrap(format!("  {e}"))
+}
+
+fn nested_if_after_let_call(k: usize) -> String {
+    let mut e = "a".to_string();
+    for i in (0..k).rev() {
+        e = format!("let n{i}: i64 = id(a + {i});\n  if n{i} == {i} {{ {i} }} else {{ {e} }}");
+    }
+    wrap(format!("  {e}"))
+}
+
 pub const FAMILIES: &[Family] = &[
+    Family { name: "let of a call then match, next link nested in a clause (3 constructors)", make: nested_let_call_case },
+    Family { name: "let of a call then match, next link nested in a clause (5 constructors)", make: nested_let_call_case5 },
+    Family { name: "let of an object then destructor and conditional, nested", make: nested_let_call_codata },
+    Family { name: "objects selected by a match, applied in a chain", make: nested_case_in_new_clause },
+    Family { name: "let of a label block then match, nested in a clause", make: nested_label_call_case },
+    Family { name: "let of a call then conditional, nested in the else branch", make: nested_if_after_let_call },
     Family { name: "sequenced conditionals", make: seq_if },
     Family { name: "operator tree over conditionals", make: nested_if_operands },
     Family { name: "conditional in condition", make: if_in_condition },
@@ -233,6 +289,16 @@ pub fn run(ctx: &Ctx, acc: &mut Acc) {
                     }
                     sizes[k] = Some(m);
                     acc.nontrivial(crate::rng::hash_str(&format!("{}:{k}", fam.name)));
+                    // stop a family as soon as a doubling step is far beyond the bound (exponential growth
+                    // makes larger k needlessly expensive; the violation is reported below)
+                    if k % 2 == 0 && k / 2 >= 4 {
+                        if let (Some(a), Some(b)) = (&sizes[k / 2], &sizes[k]) {
+                            let blown = a.iter().skip(1).any(|(st, sa)| b.iter().find(|x| x.0 == *st).is_some_and(|(_, sb)| *sb as f64 > 12.0 * (*sa).max(1) as f64));
+                            if blown {
+                                break;
+                            }
+                        }
+                    }
                 }
                 Err(e) => {
                     acc.infra(format!("family '{}' k={k} does not compile: {e}", fam.name));
